@@ -106,6 +106,7 @@ type interpreter struct {
 	depthCalls   int
 	frozenLocal  map[*value]struct{}
 	overrides    map[string]value
+	wraps        map[string]bool
 }
 
 type deferred struct {
@@ -500,7 +501,18 @@ func callSSA(i *interpreter, caller *frame, callpos token.Pos, fn *ssa.Function,
 	}
 	if i.overrides != nil && fn.Parent() == nil {
 		if repl, ok := i.overrides[fn.String()]; ok {
-			return call(i, caller, callpos, repl, args)
+			direct := false
+			if i.wraps[fn.String()] && caller != nil {
+				switch r := repl.(type) {
+				case *ssa.Function:
+					direct = caller.fn == r
+				case *closure:
+					direct = caller.fn == r.Fn
+				}
+			}
+			if !direct {
+				return call(i, caller, callpos, repl, args)
+			}
 		}
 	}
 	if i.isIntrinsic(fn) {
